@@ -337,8 +337,38 @@ def typed_facts(repo_root: Path, only: Optional[List[str]] = None) -> List[dict]
     finally:
         import shutil
         shutil.rmtree(tmpd, ignore_errors=True)
+    _apply_renames(repo_root, results)
     _CACHE[key] = dict(results=results)
     return results
+
+
+_NAME_FIELDS = {"setitems": ("target",), "casts": ("target",), "binops": ("lhs_var", "rhs_var", "target"), "inplace": ("lhs_var", "rhs_var", "target"),
+                "calls": ("target",), "getitems": ("base",)}
+
+
+def _apply_renames(repo_root, results: List[dict]):
+    """The typed IR is inferred on the real source; the syntax-tree side of the checks sees locals renamed to the reference names
+    (sa/canon.py). Apply the same renaming to every variable name in the facts so that the two sides join."""
+    from .core import Repo
+    try:
+        repo = Repo(Path(repo_root))
+    except Exception:  # noqa: BLE001 - the caller reports loader problems itself
+        return
+    by_kernel: Dict[str, Dict[str, str]] = {}
+    for dotted, fm in repo.renames.items():
+        for q, m in fm.items():
+            if "." not in q:
+                by_kernel[q] = m
+    for f in results:
+        m = by_kernel.get(f.get("kernel"))
+        if not m or not f.get("ok"):
+            continue
+        for fld, keys in _NAME_FIELDS.items():
+            for rec in f.get(fld, []):
+                for k in keys:
+                    if rec.get(k) in m:
+                        rec[k] = m[rec[k]]
+        f["vars"] = {m.get(k, k): v for k, v in f.get("vars", {}).items()}
 
 
 if __name__ == "__main__":
